@@ -97,6 +97,13 @@ CLAIMED.update({
    "SSA symbolic execution + SMT, inductive single step, symbolic scheduler, native replay"),
 })
 
+CLAIMED.update({
+ "C07": ("DESIGN.md 5/C07",
+   "Heap-level isolation on the engine's own store: every message handed out (Get/List/Set/Update/Add/Delete results, model snapshots) is frozen - any later store into a cell or map reachable from it is a violation - and the store must be unaffected when the caller scribbles over a message after writing it; over 3-4 operation sequences on Value, Collection, parent (AddChildTrait/RemoveChildTrait incl. spare-capacity slices), metadata (UpdateTraitMetadata/MergeMetadata) and the enter/leave Pull seed.",
+   "Trusted: symgo heap model (slice capacity growth mirrors the Go runtime's size classes), protobuf model, z3. Natively reproduced by deep-copy-and-compare. Change events' old/new values of the core resources and the other trait models are not yet covered.",
+   "SSA symbolic execution with heap freeze monitor + SMT, native replay"),
+})
+
 NOT_YET = {}
 
 NA = {
